@@ -27,6 +27,9 @@ def all_units():
     from . import asyncio_units2
 
     units += asyncio_units2.UNITS
+    from . import asyncio_units3
+
+    units += asyncio_units3.UNITS
     # a unit also carries invariant/guarantee obligations of other properties (every segment must preserve every
     # clause): the measured property set of each unit is recorded with the baseline
     import json
@@ -43,7 +46,7 @@ def all_units():
     # property are reported as supporting-obligation violations (check.py).
     pool_props = tuple(f"C{i:02d}" for i in range(1, 16))
     for u in units:
-        if u.name.startswith(("pool.", "helpers.star_function", "helpers.execute_optional", "group_register.", "asyncio.locks.", "asyncio.tasks.", "asyncio.futures.")):
+        if u.name.startswith(("pool.", "helpers.star_function", "helpers.execute_optional", "group_register.", "asyncio.locks.", "asyncio.tasks.", "asyncio.futures.", "asyncio.events.", "asyncio.base_events.")):
             u.props = tuple(sorted(set(u.props) | set(pool_props)))
     return units
 
